@@ -101,6 +101,12 @@ class Profile:
                 o, s = r.choice([hi, lo, hi - hi // 3, 0]), max(1, hi // r.choice([1, 2, 7]))
             elif self.kind == "const":
                 o, s = r.randint(-20, 20), (0 if r.random() < 0.6 else r.randint(1, 5))
+                if dk == "f" and kmax >= 30 and (f == 0 and r.random() < 0.5 or self.k):
+                    # constant values with many significant bits (like a log-energy floor, log(1e-5)): their squares and
+                    # sums of squares round, so sum^2 and count * sum-of-squares agree only up to round-off
+                    self.k = 30
+                    o = r.randint(-2 ** 34, 2 ** 34)
+                    s = s * 2 ** 28
             elif self.kind == "dyadic":
                 self.k = r.randint(1, min(kmax, 10))
                 o, s = r.randint(-300, 300), r.randint(1, 400)
@@ -781,7 +787,7 @@ def gen_file_history(ctx, r, tag):
     after the file was saved again under the same name), accumulate further, and apply."""
     F = r.choice([1, 2, 3, 4])
     dtype = r.choice(["float64", "float64", "float32", "int16", "int32", "uint8"])
-    prof = Profile(r, F, dtype, kind=r.choice(["small", "negmean", "wide", "dyadic" if DTYPES[dtype][0] == "f" else "small"]))
+    prof = Profile(r, F, dtype, kind=r.choice(["small", "negmean", "wide", "const", "dyadic" if DTYPES[dtype][0] == "f" else "small"]))
     scen = r.choice(["shared-accumulate", "resave", "random"])
     case = dict(kind="loaded", tag=tag, norm_var=r.random() < 0.7, form=r.randrange(len(FILE_FORMS)), scenario=scen,
                 profile="loaded:" + prof.kind)
@@ -844,6 +850,12 @@ def gen_file_history(ctx, r, tag):
             else:
                 app(r.choice(sorted(have)))
         app(r.choice(sorted(have)))
+    if r.random() < 0.4:
+        # statistics are computed once and the normalisation chosen later: the instance that writes the file and the
+        # ones that read it need not have the same norm_var
+        for o in ops:
+            if o["op"] in ("new", "load"):
+                o["norm_var"] = r.random() < 0.5
     case["ops"] = ops
     return case
 
@@ -862,7 +874,8 @@ def file_history_check(post, case):
             for i, o in enumerate(case["ops"]):
                 k = o.get("inst")
                 if o["op"] == "new":
-                    insts[k], refs[k] = post.Standardize(norm_var=case["norm_var"]), Ref(case["norm_var"])
+                    nvk = o.get("norm_var", case["norm_var"])
+                    insts[k], refs[k] = post.Standardize(norm_var=nvk), Ref(nvk)
                 elif o["op"] == "acc":
                     insts[k].accumulate(to_array(o["t"]), axis=o["axis"])
                     refs[k].accumulate(o["t"], o["axis"])
@@ -873,8 +886,9 @@ def file_history_check(post, case):
                     if o["by"] != "numpy" or not write_stats(np, path, case["form"], refs[k].vectors):
                         insts[k].save(path, **skw)
                 elif o["op"] == "load":
-                    insts[k] = post.Standardize(file_path(case, o["file"]), norm_var=case["norm_var"], **lkw)
-                    refs[k] = Ref(case["norm_var"])
+                    nvk = o.get("norm_var", case["norm_var"])
+                    insts[k] = post.Standardize(file_path(case, o["file"]), norm_var=nvk, **lkw)
+                    refs[k] = Ref(nvk)
                     refs[k].vectors, refs[k].F = list(files[o["file"]][0]), files[o["file"]][1]
                 else:
                     x = to_array(o["t"])
